@@ -52,6 +52,14 @@ class Check:
             self.obl['broken'].append('coqc Properties_%s.v failed: %s' % (self.pid, (p.stdout + p.stderr)[-1500:]))
         self.obl['print_assumptions'] = sorted(set(b.strip() for b in blocks))
         self.obl['checker_cmd'] = 'make -C coq theories/Properties_%s.vo && coqc -Q theories YV theories/Properties_%s.v' % (self.pid, self.pid)
+        # thorough tier: the independent checker re-checks the compiled property module and everything it depends on
+        if self.tier == 'thorough' and p.returncode == 0:
+            c = yvlib.sh(['coqchk', '-o', '-silent', '-Q', 'theories', 'YV', 'YV.Properties_%s' % self.pid], cwd=COQ, check=False, timeout=3000)
+            summ = c.stdout[c.stdout.find('CONTEXT SUMMARY'):] if 'CONTEXT SUMMARY' in c.stdout else (c.stdout + c.stderr)[-800:]
+            self.obl['coqchk'] = ' '.join(summ.split())[:600]
+            if c.returncode != 0 or 'Axioms: <none>' not in ' '.join(summ.split()):
+                self.obl['broken'].append('coqchk: ' + self.obl['coqchk'])
+            self.obl['checker_cmd'] += ' && coqchk -o -silent -Q theories YV YV.Properties_%s' % self.pid
         # hygiene grep
         bad = yvlib.sh(['grep', '-rnE', r'\b(Admitted|admit|Axiom|Parameter|Conjecture|Unset Guard|bypass_check)\b',
                         os.path.join(COQ, 'theories'), '--include=*.v'], check=False).stdout
@@ -96,6 +104,8 @@ class Check:
         cov['discharged'] = self.obl['discharged']
         cov['checker_cmd'] = self.obl.get('checker_cmd', '')
         cov['theorems'] = self.obl['theorems']
+        if self.obl.get('coqchk'):
+            cov['coqchk'] = self.obl['coqchk']
         cov['trusted_base'] = TRUSTED_BASE + ['Print Assumptions: ' + b for b in self.obl['print_assumptions']]
         cov['known_findings_matched'] = {k: v[0] for k, v in self.known_hits.items()}
         if extra_cov:
